@@ -300,7 +300,8 @@ pub fn op_writer(session: &mut Session, cmd: &J) -> Result<J, String> {
 	}
 	Ok(json!({"res": "ok", "build": build_res, "steps": out_steps, "sink": bytes_json(&sink.got),
 		"schema_json": bytes_json(schema.schema.json().as_bytes()),
-		"sink_calls": sink.calls, "vectored_calls": sink.vectored_calls, "plain_calls": sink.plain_calls}))
+		"sink_calls": sink.calls, "vectored_calls": sink.vectored_calls, "plain_calls": sink.plain_calls,
+		"sink_log": sink.log.iter().map(|(v, o, k)| json!([*v as u8, o, k])).collect::<Vec<_>>()}))
 }
 
 /// Project a container file: header bytes are left to TLC (ParseHeader); blocks are walked and de-framed here.
